@@ -225,6 +225,8 @@ fn answer(line: &str) -> String {
         None => checker,
     };
     // the checker `explain <file>` uses
+    // config::validation (content part is the only part a generated configuration can fail)
+    let val = sloc_guard::config::verif_validate_config_semantics(&cfg0).is_ok();
     let xchecker = match ThresholdChecker::new(cfg0) {
         Ok(c) => c,
         Err(e) => return format!("ERR={}", e.error_type()),
@@ -241,10 +243,11 @@ fn answer(line: &str) -> String {
     let exp = checker.explain(&path);
     let xexp = xchecker.explain(&path);
     format!(
-        "MV={}\tEV={}\tEXT={}\tSP={}\tXC={}\tSK={}{}\tEFF={}\tCHK={}\tPFC={}\tEXP={}\tXEXP={}",
+        "MV={}\tEV={}\tEXT={}\tVAL={}\tSP={}\tXC={}\tSK={}{}\tEFF={}\tCHK={}\tPFC={}\tEXP={}\tXEXP={}",
         mv,
         ev,
         enc_opt(ext.as_deref()),
+        u8::from(val),
         u8::from(sp),
         u8::from(checker.is_content_excluded(&path)),
         u8::from(sc),
@@ -263,13 +266,19 @@ fn main() {
     if mode == "dump" {
         let c = Config::default().content;
         println!(
-            "max_lines={} warn_threshold_bits={} warn_at={} skip_comments={} skip_blank={} extensions={}",
+            "max_lines={} warn_threshold_bits={} warn_at={} skip_comments={} skip_blank={} extensions={} languages={}",
             c.max_lines,
             c.warn_threshold.to_bits(),
             c.warn_at.map_or_else(|| "~".to_string(), |w| w.to_string()),
             u8::from(c.skip_comments),
             u8::from(c.skip_blank),
-            c.extensions.join(",")
+            c.extensions.join(","),
+            sloc_guard::language::LanguageRegistry::default()
+                .all()
+                .iter()
+                .flat_map(|l| l.extensions.iter().cloned())
+                .collect::<Vec<_>>()
+                .join(",")
         );
         return;
     }
